@@ -55,6 +55,20 @@ Sensitivity (quick tier, seed 1, scratch copy of /repo/tornado, one mutant at a 
   M8  close(): no stream.close() when both close frames were exchanged              -> C16.notified_but_transport_open
   M9  close(): ping coroutine not cancelled                                         -> C16.timer_left_after_teardown
   M10 on_ws_connection_close drops close_reason                                     -> C16.reported_close_code
+Added after independent mutation testing found a gap:
+  M11 _receive_frame_loop: `while not self.client_terminated and not self.stream.closed()` (a complete peer close
+      frame that is still buffered when the peer's FIN closed the transport is never processed)
+                                                                      -> C16.reported_close_code (grid + ref) / C16.timer_left_after_teardown
+  It needs: on_message unfinished, the idle stream still listening (the busy message's payload came in its own TCP
+  segment, so the read buffer was empty afterwards), close frame + FIN in ONE burst, then on_message finishing.  New:
+  `peer_msg` carries a segmentation, the `burst` operation feeds [message] + close frame (+FIN) without quiescence in
+  between, the model counts a close frame as processed when it was received intact ahead of the FIN that closed the
+  transport (not after RST or Tornado's own closing-timeout abort: EITHER), labels
+  `transport_closed_by_fin_while_on_message_unfinished` / `peer_close_processed_after_fin`, and the deterministic
+  part `goodbye_grid` (6 segmentations x 6 close payloads x 4 interludes x 2 = 288 histories) enumerates exactly these.
+  False alarm corrected while adding this (seed 5): after close() on a transport that the FIN had already closed
+  nothing reaches the wire, but the 5 s abort timer is armed all the same -- the EITHER guard now uses the time of
+  the close() call, not the time the close frame was seen on the wire.
 """
 import asyncio
 import struct
@@ -251,9 +265,16 @@ ref_op_s = st.one_of(
     st.tuples(st.just("local_close"), st.sampled_from(CLOSE_ARGS)),
     st.tuples(st.just("peer_close"), st.sampled_from(PEER_CLOSE), st.lists(st.integers(1, 6), max_size=2)),
     st.tuples(st.just("peer_close"), st.sampled_from(PEER_CLOSE), st.lists(st.integers(1, 6), max_size=2)),
-    st.tuples(st.just("peer_msg"), text_s),
-    st.tuples(st.just("peer_msg"), text_s),
+    # 3rd field: TCP segmentation of the frame.  [6] = header+mask first, payload later: the payload read then goes
+    # through the socket with an empty buffer afterwards, so the idle stream keeps listening (and notices a FIN)
+    # while on_message is still running; unsegmented, the rest of the frame is served from the buffer
+    st.tuples(st.just("peer_msg"), text_s, st.sampled_from([[], [], [6], [2, 4], [1], [6, 1]])),
+    st.tuples(st.just("peer_msg"), text_s, st.sampled_from([[], [], [6], [2, 4], [1], [6, 1]])),
     st.tuples(st.just("release"),),
+    # one TCP burst: [text message] + close frame (+ FIN) under a segmentation, no quiescence in between -- the peer
+    # "says goodbye and hangs up" while Tornado may still be busy with an earlier or this very message
+    st.tuples(st.just("burst"), st.one_of(st.none(), text_s), st.sampled_from(PEER_CLOSE), st.lists(st.sampled_from([1, 2, 5, 6, 7, 8, 12]), max_size=3), st.booleans()),
+    st.tuples(st.just("burst"), st.one_of(st.none(), text_s), st.sampled_from(PEER_CLOSE), st.lists(st.sampled_from([1, 2, 5, 6, 7, 8, 12]), max_size=3), st.booleans()),
     st.tuples(st.just("write"), text_s),
     st.tuples(st.just("app_ping"),),
     st.tuples(st.just("peer_ping"), st.binary(max_size=4)),
@@ -317,8 +338,20 @@ def run_ref(ctx, case):
         async def observe(step, op, cause):
             nonlocal fed_close
             now = loop.time()
-            # processed = delivered completely while the transport was open and nothing earlier is unfinished
-            if fed_close is not None and side.peer_close is None and not blocked() and out.get("open_at_step_start") and not partial:
+            if side.stream.closed() and "closed_cause" not in out:
+                # the only reason the transport closes without Tornado's own doing is the peer's FIN
+                out["closed_cause"] = "fin" if out.get("eof_kind") == "fin" and out.get("step_kind") != "advance" else "other"
+            # processed = delivered completely while the transport was open and nothing earlier is unfinished ...
+            can_process = out.get("open_at_step_start")
+            if not can_process and out.get("closed_cause") == "fin" and out.get("close_fed_while_open") \
+                    and not (out.get("local_close_time") is not None and now >= out["local_close_time"] + 5):
+                # ... or it was received intact ahead of the FIN that closed the transport: it is still in the read
+                # buffer when the unfinished on_message returns, and "the peer's code and reason when one was
+                # received" applies (unless Tornado's own closing timeout aborted the connection meanwhile)
+                can_process = True
+                if fed_close is not None and side.peer_close is None and not blocked():
+                    labels.add("peer_close_processed_after_fin")
+            if fed_close is not None and side.peer_close is None and not blocked() and can_process and not partial:
                 side.peer_close = fed_close[:2]
                 if fed_close[2]:
                     side.sig_class = "peer_close_reason_not_utf8"
@@ -338,8 +371,33 @@ def run_ref(ctx, case):
         for step, op in enumerate(case["ops"]):
             kind = op[0]
             out["open_at_step_start"] = not side.stream.closed()
+            out["step_kind"] = kind
             cause = "other"
-            if kind == "local_close":
+            if kind == "burst":
+                if fed_close is not None or side.eof or partial:
+                    continue
+                text, (code, reason), segs, fin = op[1], op[2], op[3], op[4]
+                data = (enc.frame(wsref.OP_TEXT, text.encode()) if text is not None else b"") + \
+                    enc.frame(wsref.OP_CLOSE, wsref.close_payload(code, reason or ""))
+                was_blocked = blocked()
+                fed_close = (code, (reason or None) if code is not None else None, False)
+                out["close_fed_while_open"] = out["open_at_step_start"]
+                side.stream.feed(data, H.segments(len(data), segs, cap=len(segs), bulk=1 << 20))
+                if fin:
+                    side.stream.feed_eof()
+                    side.eof = True
+                    out["eof_kind"] = "fin"
+                await peer.settle()
+                labels.add("burst_close" + ("_fin" if fin else ""))
+                if blocked():
+                    labels.add("close_during_async_on_message")
+                    out["nontrivial"] = True
+                    if fin:
+                        labels.add("close_and_fin_during_async_on_message")
+                        if side.stream.closed():
+                            labels.add("transport_closed_by_fin_while_on_message_unfinished")
+                cause = "delivery"
+            elif kind == "local_close":
                 code, reason = op[1]
                 if side.local_closed:
                     # a second close() must be a no-op (a second close frame is caught by the wire check)
@@ -359,6 +417,7 @@ def run_ref(ctx, case):
                     out["nontrivial"] = True
                 side.local_closed = True
                 side.local_args = (code, reason)
+                out["local_close_time"] = loop.time()   # close() arms the 5 s abort timer even if nothing can be written
                 side.close_fn(code, reason)
                 cause = "local"
                 await peer.settle()
@@ -378,13 +437,18 @@ def run_ref(ctx, case):
                 if side.sent_close is not None and not side.stream.closed():
                     labels.add("peer_close_answers_local")
                 fed_close = (code, (reason or None) if code is not None else None, bad)
+                out["close_fed_while_open"] = out["open_at_step_start"]
                 cause = "delivery"
                 await peer.send(frame, H.segments(len(frame), op[2], cap=2, bulk=1 << 20))
             elif kind == "peer_msg":
                 if side.eof or partial or fed_close is not None:
                     continue
                 n_before = len(got_msgs())
-                await peer.send(enc.frame(wsref.OP_TEXT, op[1].encode()))
+                frame = enc.frame(wsref.OP_TEXT, op[1].encode())
+                segs = list(op[2]) if len(op) > 2 else []
+                await peer.send(frame, H.segments(len(frame), segs, cap=len(segs), bulk=1 << 20))
+                if segs:
+                    labels.add("peer_msg_segmented")
                 labels.add("peer_msg_after_local_close" if side.local_closed else "peer_msg")
                 if not side.local_closed and not blocked() and out["open_at_step_start"] and side.peer_close is None:
                     if got_msgs()[n_before:] != [op[1]]:
@@ -423,6 +487,7 @@ def run_ref(ctx, case):
                 if side.sent_close is not None and side.peer_close is None and not side.stream.closed():
                     labels.add("disconnect_between_close_frames")
                     out["nontrivial"] = True
+                out["eof_kind"] = op[1]
                 if op[1] == "fin":
                     side.stream.feed_eof()
                 else:
@@ -443,6 +508,7 @@ def run_ref(ctx, case):
         if not out.get("stop"):
             # ---- every history ends: release what is pending, then the closing timeout or a disconnect
             out["open_at_step_start"] = not side.stream.closed()
+            out["step_kind"] = "release"
             for _ in range(40):     # a released on_message lets the next queued message start a new one
                 if not blocked():
                     break
@@ -454,12 +520,15 @@ def run_ref(ctx, case):
             if ok and not side.stream.closed():
                 out["open_at_step_start"] = True
                 if side.sent_close is not None:
+                    out["step_kind"] = "advance"
                     await peer.advance(5.000001)
                     labels.add("ended_by_closing_timeout")
                     ok = await observe("end-timeout", None, "advance_noping")
                 else:
                     side.stream.feed_eof()
                     side.eof = True
+                    out.setdefault("eof_kind", "fin")
+                    out["step_kind"] = "eof"
                     await peer.settle()
                     labels.add("ended_by_disconnect")
                     ok = await observe("end-eof", None, "delivery")
@@ -862,11 +931,24 @@ def run_ping(ctx, case):
     ctx.note(case, labels, out["nontrivial"])
 
 
-PARTS = {"ref": run_ref, "pair": run_pair, "ping": run_ping}
+def goodbye_grid():
+    """Deterministic: the server is busy in an unfinished on_message when the peer sends its close frame and
+    hangs up (FIN) in one burst; on_message finishes afterwards.  Every segmentation of the busy message x every
+    close payload x (nothing | a second message | an application write | a release) in between."""
+    for segs in ([], [6], [2, 4], [1], [6, 1], [2]):
+        for pc in PEER_CLOSE:
+            for extra in ([], [("peer_msg", "hi", [6])], [("write", "w")], [("release",)]):
+                for text in (None, "x"):
+                    yield {"role": "server", "async_on_message": True, "callback_mode": True, "bad_reason": False,
+                           "ops": [("peer_msg", "héllo", segs)] + extra + [("burst", text, pc, [], True), ("release",)]}
+
+
+PARTS = {"ref": run_ref, "pair": run_pair, "ping": run_ping, "goodbye_grid": run_ref}
 
 
 def main(ctx):
     ctx.run_replays(PARTS)
+    ctx.enumerate(goodbye_grid(), run_ref, name="goodbye_grid")
     ctx.explore(ref_case_s, run_ref, ctx.n(2500, 14000), name="ref")
     ctx.explore(pair_case_s, run_pair, ctx.n(1500, 10000), name="pair")
     ctx.explore(ping_case_s, run_ping, ctx.n(800, 6000), name="ping")
